@@ -3,7 +3,7 @@
    state, so the statements below quantify over ALL states (and all fault schedules).  Truthfulness
    for arbitrary states is C03 (clean => intact, counts) and C02 (Repair writes only data matching
    the recorded hashes), both stated for every state; restated here for the record. *)
-From Gopar Require Import Model.Base Model.CRC Model.GoPath Model.FS Model.Par2 Model.Par1 Proofs.Par2Facts Proofs.Par2Verify Proofs.Par2Faults Proofs.Par1Facts.
+From Gopar Require Import Model.Base Model.CRC Model.GoPath Model.FS Model.Par2 Model.Par1 Proofs.Par2Facts Proofs.Par2Verify Proofs.Par2Faults Proofs.Par1Facts Proofs.Par1Safety.
 Open Scope N_scope.
 
 Theorem C13_verify_no_panic : forall md5 ix st p, fst (par2_verify md5 ix st) <> Panic p.
@@ -43,3 +43,12 @@ Print Assumptions C13_repair_no_panic.
 Theorem C13_par1_verify_pure : forall md5 ix all st, io_fs (snd (par1_verify md5 ix all st)) = io_fs st.
 Proof. exact par1_verify_pure. Qed.
 Print Assumptions C13_par1_verify_pure.
+
+(* PAR1 Verify and Repair never panic either, for every state and fault schedule *)
+Theorem C13_par1_verify_no_panic : forall md5 ix all st p, fst (par1_verify md5 ix all st) <> Panic p.
+Proof. exact par1_verify_no_panic. Qed.
+Print Assumptions C13_par1_verify_no_panic.
+
+Theorem C13_par1_repair_no_panic : forall md5 ix dbl st p, fst (fst (par1_repair md5 ix dbl st)) <> Panic p.
+Proof. exact par1_repair_no_panic. Qed.
+Print Assumptions C13_par1_repair_no_panic.
